@@ -245,7 +245,7 @@ V("C09", "pop helper pops twice", H,
   "            popped_items.append(iterable_object.pop())\n",
   "            popped_items.append(iterable_object.pop())\n"
   "            if ctx.reverse_flag and iterable_object:\n"
-  "                iterable_object.pop()\n", "C09.pop-helper")
+  "                iterable_object.pop()\n", "C09.pop-transition")
 V("C09", "element deletes from the stack", E,
   '"_": ("pop(stack, 1, ctx)", 1),', '"_": ("del stack[-1]", 1),',
   "C09.stack-use")
